@@ -26,8 +26,8 @@
 //	  (`req i`: conn i sends a request whose handler is held until `relreq`; oracles c05-overlap / c05-close-order, for
 //	  C05 through `gen -tier c05`: the conn's close handling ran while / before that handler had finished)
 //
-//	C <id> ioblock attempts=<k> Stop racing a busy read task of the default IO task pool (see runIOBlock)
-//	  O run                       R ret=<nil|hang> attempts=<k>
+//	C <id> ioblock attempts=<k> Stop racing a read hand-over to the default IO task pool, forced schedule (see runIOBlock)
+//	  O run                       R ret=<nil|hang> attempts=<k>  |  R skipped (state never reached)
 //
 // Direct oracles (implementation only):
 //
@@ -119,9 +119,9 @@ func genHsimReq(g *lp.Gen, id int) {
 	g.P("O wait")
 }
 
-// genIOBlock: Stop racing a busy read task of the engine's default IO task pool (ET + AsyncReadInPoller).
+// genIOBlock: Stop racing a read hand-over to the engine's default IO task pool (ET + AsyncReadInPoller), forced schedule.
 func genIOBlock(g *lp.Gen, id int) {
-	g.P("C %d ioblock attempts=%d", id, 8)
+	g.P("C %d ioblock attempts=%d", id, 2)
 	g.P("O run")
 }
 
@@ -1544,19 +1544,34 @@ func runHsim(e *lp.Exec, head string, ops []string) {
 	e.Count("hsim", "cases")
 }
 
-// runIOBlock: Engine.Stop racing a busy read task of the engine's DEFAULT IO task pool (EPOLLET + AsyncReadInPoller:
-// reads are handed to taskpool.NewIO(0, 0, …), an unbuffered queue served by one dispatcher goroutine). The data
-// callback of conn A is held, data arrives on conn B: the poller blocks handing B's read over. Then Stop, then the
-// handler is released. Stop must return (the pool's Stop unblocks the poller). Whether a broken hand-over shows
-// depends on a `select` of the dispatcher (probability 1/2 per attempt), so the schedule is repeated.
+// runIOBlock: Engine.Stop racing a read hand-over to the engine's DEFAULT IO task pool (EPOLLET + AsyncReadInPoller:
+// reads are handed to taskpool.NewIO(0, 0, …), an unbuffered queue served by one dispatcher goroutine).
 //
-//	C <id> ioblock attempts=<k>      O run      R ret=nil attempts=<k>
+// Forced schedule (deterministic): data arrives on a conn; the poller enters TaskPool.Go and is HELD there by the
+// shim's atomic hook, at the counter decrement right before the queue operation. Stop is called; the harness waits
+// until Stop is past the close notifications and the pool's Stop (a goroutine in Engine.Stop blocked in
+// WaitGroup.Wait, the conn's close notification delivered, twice in a row) — the dispatcher has returned by then. Then
+// the poller is released: its hand-over finds the pool stopped and must give up (the `chClose` case of Go's select), the
+// poller sees the shutdown flag and Stop returns. The state is established by probing, not by delays; an attempt that
+// does not reach it within its timeout (overloaded machine) is skipped, not counted as a pass.
+//
+//	C <id> ioblock attempts=<k>      O run      R ret=nil attempts=<k>   |   R skipped
 func runIOBlock(e *lp.Exec, head string, ops []string) {
 	ws := strings.Fields(head)
 	attempts := atoi(field(ws, "attempts"))
 	vsys.VirtualAll = false
 	e.P("> %s", head)
 	e.P("ok")
+	stopWaiting := func() bool {
+		buf := make([]byte, 1<<20)
+		buf = buf[:runtime.Stack(buf, true)]
+		for _, gr := range strings.Split(string(buf), "\n\n") {
+			if strings.Contains(gr, "nbio.(*Engine).Stop(") && strings.Contains(gr, "sync.(*WaitGroup).Wait(") {
+				return true
+			}
+		}
+		return false
+	}
 	for _, ln := range ops {
 		ow := strings.Fields(ln)
 		if ow[0] != "O" || ow[1] != "run" {
@@ -1565,48 +1580,66 @@ func runIOBlock(e *lp.Exec, head string, ops []string) {
 			continue
 		}
 		hung := -1
-		for a := 0; a < attempts && hung < 0; a++ {
-			var first atomic.Value
-			gate := make(chan struct{})
-			var held int32
+		reached, tried := 0, 0
+		for reached < attempts && tried < 2*attempts && hung < 0 {
+			tried++
+			var closes, armed, holding int32
+			rel := make(chan struct{})
 			g := nbio.NewEngine(nbio.Config{Network: "tcp", Addrs: []string{"127.0.0.1:0"}, NPoller: 1, EpollMod: nbio.EPOLLET, AsyncReadInPoller: true})
-			g.OnOpen(func(c *nbio.Conn) {
-				if first.Load() == nil {
-					first.Store(c)
-				}
-			})
-			g.OnData(func(c *nbio.Conn, data []byte) {
-				if f, _ := first.Load().(*nbio.Conn); f == c && atomic.CompareAndSwapInt32(&held, 0, 1) {
-					<-gate
-				}
-			})
+			var srv atomic.Value
+			g.OnOpen(func(c *nbio.Conn) { srv.Store(c) })
+			g.OnClose(func(c *nbio.Conn, err error) { atomic.AddInt32(&closes, 1) })
+			g.OnData(func(c *nbio.Conn, data []byte) {})
 			if err := g.Start(); err != nil {
 				panic(err)
 			}
-			ca, err := net.DialTimeout("tcp", g.Addrs[0], 2*time.Second)
-			if err != nil {
-				panic(err)
-			}
-			waitFor(func() bool { return first.Load() != nil }, 2*time.Second)
 			cb, err := net.DialTimeout("tcp", g.Addrs[0], 2*time.Second)
 			if err != nil {
 				panic(err)
 			}
-			time.Sleep(5 * time.Millisecond)
-			_, _ = ca.Write([]byte("a"))
-			waitFor(func() bool { return atomic.LoadInt32(&held) == 1 }, 2*time.Second)
-			_, _ = cb.Write([]byte("b")) // the poller hands B's read to the pool: the dispatcher is busy with A
-			time.Sleep(20 * time.Millisecond)
+			waitFor(func() bool { return srv.Load() != nil }, 3*time.Second)
+			time.Sleep(2 * time.Millisecond)
+			// TaskPool.Go: fork fails (the IO pool forks nothing), `concurrent` is decremented, then the task is
+			// offered to the queue. The first decrement after arming is the poller's, inside Go.
+			vsys.AtomicHook64 = func(p *int64, delta, result int64) {
+				if delta == -1 && atomic.CompareAndSwapInt32(&armed, 1, 2) {
+					atomic.StoreInt32(&holding, 1)
+					<-rel
+				}
+			}
+			atomic.StoreInt32(&armed, 1)
+			_, _ = cb.Write([]byte("b"))
+			okH := waitFor(func() bool { return atomic.LoadInt32(&holding) == 1 }, 3*time.Second)
 			done := make(chan struct{})
 			go func() { g.Stop(); close(done) }()
-			time.Sleep(20 * time.Millisecond) // Stop is past ioTaskPool.Stop() and waits for the poller
-			close(gate)
+			okS := false
+			if okH {
+				okS = waitFor(func() bool {
+					time.Sleep(2 * time.Millisecond)
+					if atomic.LoadInt32(&closes) < 1 || !stopWaiting() {
+						return false
+					}
+					time.Sleep(15 * time.Millisecond)
+					return stopWaiting()
+				}, 3*time.Second)
+			}
+			if okS {
+				reached++
+				e.Count("ioblock", "attempt-reached")
+			} else {
+				e.Count("ioblock", "attempt-skipped")
+			}
+			atomic.StoreInt32(&armed, 3)
+			close(rel)
 			select {
 			case <-done:
 			case <-time.After(5 * time.Second):
-				hung = a
+				if !okS {
+					e.Count("ioblock", "hang-in-skipped-attempt")
+				}
+				hung = tried
 			}
-			_ = ca.Close()
+			vsys.AtomicHook64 = nil
 			_ = cb.Close()
 		}
 		ret := "nil"
@@ -1614,7 +1647,14 @@ func runIOBlock(e *lp.Exec, head string, ops []string) {
 			ret = "hang"
 			buf := make([]byte, 1<<16)
 			buf = buf[:runtime.Stack(buf, true)]
-			e.Oracle("c18-hang", "class=unexplained Engine.Stop (EPOLLET, AsyncReadInPoller, default IO task pool) did not return within 5s after the held data handler was released (attempt %d of %d: conn A's data handler held, conn B's read being handed to the pool, then Stop); %s", hung+1, attempts, summarizeStacks(string(buf)))
+			e.Oracle("c18-hang", "class=unexplained Engine.Stop (EPOLLET, AsyncReadInPoller, default IO task pool) did not return within 5s after the poller, held inside TaskPool.Go while Stop stopped the pool, was released (attempt %d; %d attempt(s) had reached the state: poller in Go, close notification delivered, Stop waiting); %s", hung, reached, summarizeStacks(string(buf)))
+		}
+		if reached == 0 && hung < 0 {
+			// the state was never reached (overloaded machine): nothing is claimed for this case
+			e.P("> %s skip=1", ln)
+			e.P("R skipped")
+			e.Count("ioblock", "case-skipped")
+			continue
 		}
 		e.P("> %s", ln)
 		e.P("R ret=%s attempts=%d", ret, attempts)
